@@ -174,6 +174,10 @@ pub fn catalogue(thorough: bool) -> Value {
         (json!([5]), json!(["06a153", "4b1a01", "000001"])),
         (json!([24]), Value::Null),
         (Value::Null, json!(["4b1a03"])),
+        (json!([4, 5, 11, 17, 20, 21]), Value::Null),
+        (json!([21, 4, 17, 0, 16]), json!(["fffffe", "000001", "4b1a01", "06a153"])),
+        (json!([22]), Value::Null),
+        (json!([25, 1, 2, 3]), Value::Null),
     ];
     for (k, (dff, acf)) in filter_sets.iter().enumerate() {
         for via in ["cli", "config"] {
@@ -201,6 +205,16 @@ pub fn catalogue(thorough: bool) -> Value {
         let mk = |s: usize, dt: f64, fr: &[u8], tag: &str| ev(s, dt, fr, "dup", tag, None, json!({}));
         let events = vec![mk(0, 0.0, &x1, "x1"), mk(0, 0.0, &y, "y"), mk(1, gap, &x1, "x1"), mk(1, 0.0, &x2, "x2"), mk(0, 0.01, &x2, "x2")];
         scenarios.push(json!({"name": format!("dedup:w{w}:gap{}", (gap * 1000.0) as u32), "group": "dedup", "sensors": sensors,
+            "options": {"dedup_ms": w, "df_filter": null, "aircraft_filter": null, "via": "cli", "rest": false},
+            "expect_merged": merged, "window_s": w as f64 / 1000.0, "events": events}));
+    }
+    // one receiver only: the same frame twice inside / outside the window
+    for (w, gap, merged) in [(450, 0.06, true), (450, 0.9, false), (1000, 0.06, true)] {
+        let x1 = df17(5, 0x4b1a01, &me_bds08(4, 1, &cs_codes("DUP00001")), 0);
+        let y = df17(5, 0x4b1a03, &me_bds08(4, 1, &cs_codes("ONLYONCE")), 0);
+        let mk = |dt: f64, fr: &[u8], tag: &str| ev(0, dt, fr, "dup", tag, None, json!({}));
+        let events = vec![mk(0.0, &x1, "x1"), mk(0.0, &y, "y"), mk(gap, &x1, "x1")];
+        scenarios.push(json!({"name": format!("dedup1:w{w}:gap{}", (gap * 1000.0) as u32), "group": "dedup", "sensors": [sensors[0]],
             "options": {"dedup_ms": w, "df_filter": null, "aircraft_filter": null, "via": "cli", "rest": false},
             "expect_merged": merged, "window_s": w as f64 / 1000.0, "events": events}));
     }
